@@ -23,7 +23,7 @@ def trackSourcesExpected : List (List Char × List (List Char)) :=
    (lit "end_of_track", [lit "return b'\\x00\\xff/\\x00'"]),
    (lit "play_Note", [lit "channel = note.channel", lit "velocity = note.velocity", lit "if self.change_instrument:\n    self.set_instrument(channel, self.instrument)\n    self.change_instrument = False\n    self.set_deltatime(0)", lit "assert 0 <= velocity <= 127", lit "self.track_data += self.note_on(channel, int(note) + 12, velocity)"]),
    (lit "play_NoteContainer", [lit "if len(notecontainer) <= 1:\n    [self.play_Note(x) for x in notecontainer]\nelse:\n    self.play_Note(notecontainer[0])\n    self.set_deltatime(0)\n    [self.play_Note(x) for x in notecontainer[1:]]"]),
-   (lit "play_Bar", [lit "self.set_deltatime(self.delay)", lit "self.delay = 0", lit "self.set_meter(bar.meter)", lit "self.set_deltatime(0)", lit "self.set_key(bar.key)", lit "for x in bar:\n    tick = int(round(1.0 / x[1] * 288))\n    if x[2] is None or len(x[2]) == 0:\n        self.delay += tick\n    else:\n        self.set_deltatime(self.delay)\n        self.delay = 0\n        if hasattr(x[2], 'bpm'):\n            self.set_deltatime(0)\n            self.set_tempo(x[2].bpm)\n        self.play_NoteContainer(x[2])\n        self.set_deltatime(self.int_to_varbyte(tick))\n        self.stop_NoteContainer(x[2])"]),
+   (lit "play_Bar", [lit "self.set_deltatime(self.delay)", lit "self.delay = 0", lit "self.set_meter(bar.meter)", lit "self.set_deltatime(0)", lit "self.set_key(bar.key)", lit "for x in bar:\n    tick = int(round(1.0 / x[1] * 288))\n    if x[2] is None or len(x[2]) == 0:\n        self.delay += tick\n    else:\n        self.set_deltatime(self.delay)\n        self.delay = 0\n        if hasattr(x[2], 'bpm'):\n            self.set_tempo(x[2].bpm)\n            self.set_deltatime(0)\n        self.play_NoteContainer(x[2])\n        self.set_deltatime(self.int_to_varbyte(tick))\n        self.stop_NoteContainer(x[2])"]),
    (lit "play_Track", [lit "if hasattr(track, 'name'):\n    self.set_track_name(track.name)", lit "instr = track.instrument", lit "if hasattr(instr, 'instrument_nr'):\n    self.change_instrument = True\n    self.instrument = instr.instrument_nr", lit "for bar in track:\n    self.play_Bar(bar)"]),
    (lit "stop_Note", [lit "channel = note.channel", lit "velocity = note.velocity", lit "self.track_data += self.note_off(channel, int(note) + 12, velocity)"]),
    (lit "stop_NoteContainer", [lit "if len(notecontainer) <= 1:\n    [self.stop_Note(x) for x in notecontainer]\nelse:\n    self.stop_Note(notecontainer[0])\n    self.set_deltatime(0)\n    [self.stop_Note(x) for x in notecontainer[1:]]"]),
